@@ -54,7 +54,7 @@ REQUIRED = dict(
     classes=['source:array', 'source:text', 'source:hdf5', 'columns:3', 'columns:4', 'order:ascending-wavelength',
              'order:descending-wavelength', 'order:random', 'n:2', 'grid:linear', 'grid:constR', 'grid:irregular',
              'grid:two-instruments', 'widths:overlapping-bins', 'widths:narrow',
-             'second-observation:same-count-and-ends-other-spacing', 'second-observation:columns-3'])
+             'second-observation:same-count-and-ends-other-spacing', 'second-observation:columns-3', 'rows-dtype:i'])
 EPS = float(np.finfo(float).eps)
 
 _state = {'last_obs': None, 'last_binner_decl': None, 'ctx': None}
@@ -220,7 +220,17 @@ def gen_rows(rng, ncol=None, n=None):
             w = sp * 10 ** rng.uniform(-2, 0.4, n)
         w = np.minimum(w, 1.8 * lam * 0.99)             # lambda - w/2 > 0
         cols.append(w)
-    return np.column_stack(cols), kind, wkind
+    rows = np.column_stack(cols)
+    if rng.random() < 0.08 and n <= 9:
+        # a table typed by hand: whole numbers, the whole array of integer dtype (wavelengths dividing 10000 so that the
+        # value can still encode its own wavenumber exactly)
+        lam_i = np.sort(rng.choice([1, 2, 4, 5, 8, 10, 16, 20, 25], n, replace=False))
+        ints = [lam_i, 10000 // lam_i, rng.integers(1, 50, n)]
+        if ncol == 4:
+            ints.append(np.full(n, 1, dtype=np.int64))
+        rows = np.column_stack(ints).astype(np.int64)
+        kind, wkind = 'linear', ('derived' if ncol == 3 else 'narrow')
+    return rows, kind, wkind
 
 
 def permutations(rng, n):
@@ -285,7 +295,8 @@ def run_source(ctx, rng, source, rows, load):
 
 
 def observe_case(ctx, source, rows, kind, wkind):
-    ctx.observe('source:' + source, 'columns:%d' % rows.shape[1], 'n:%d' % len(rows), 'grid:' + kind, 'widths:' + wkind)
+    ctx.observe('source:' + source, 'columns:%d' % rows.shape[1], 'n:%d' % len(rows), 'grid:' + kind, 'widths:' + wkind,
+                'rows-dtype:' + rows.dtype.kind)
     ctx.feature(source=source, n=len(rows), columns=int(rows.shape[1]), grid=kind, widths=wkind)
     ctx.sig(source, rows.shape, kind, wkind, float(rows.sum()))
     ctx.sample({'source': source, 'n': len(rows), 'columns': int(rows.shape[1]), 'grid': kind, 'widths': wkind,
